@@ -164,6 +164,9 @@ int hx_hash_known(int ha);
 extern const char *const hx_kinds[];
 extern const int hx_nkinds;
 extern long hx_force_len;
+extern int hx_data_patterns;
+extern uint64_t hx_key_salt;
+extern int hx_full_tags;
 extern int hx_len_long;
 extern int hx_docsis_shape;
 extern int hx_custom_fail_rate;
